@@ -104,12 +104,13 @@ _HEXDIGITS = "0123456789abcdef"
 
 
 def _hexdigit_str(n):
-    """symbolic int 0..15 -> one-char symbolic str whose code point is a branch-free z3 If term."""
+    """nibble (SymbolicInt or int 0..15) -> one-char symbolic str (lowercase hex digit), branch-free."""
     from crosshair.libimpl.builtinslib import LazyIntSymbolicStr, SymbolicInt
-    import z3
+    from crosshair.statespace import context_statespace as _cs
+    from engine import chmodels
     with NoTracing():
         if isinstance(n, SymbolicInt):
-            cp = SymbolicInt(n.var + z3.If(n.var >= 10, z3.IntVal(87), z3.IntVal(48)))
+            cp = chmodels.hexchar_sym(_cs(), n.var)
         else:
             cp = n + (87 if n >= 10 else 48)
         return LazyIntSymbolicStr([cp])
@@ -124,7 +125,16 @@ def _hex2_format(fmt, other):
         if not (0 <= v <= 255):
             with NoTracing():
                 return str.__mod__(fmt, deep_realize(other))
-        out = out + _hexdigit_str(v // 16) + _hexdigit_str(v % 16)
+        with NoTracing():
+            from crosshair.libimpl.builtinslib import SymbolicInt
+            if isinstance(v, SymbolicInt):
+                from engine import chmodels
+                from crosshair.statespace import context_statespace as _cs
+                hi, lo = chmodels.nibbles(_cs(), v.var)
+                hi, lo = SymbolicInt(hi), SymbolicInt(lo)
+            else:
+                hi, lo = v // 16, v % 16
+        out = out + _hexdigit_str(hi) + _hexdigit_str(lo)
     return out
 
 
